@@ -126,6 +126,9 @@ class RemoteServer():
                                 continue
 
                             ctx.call(cli)
+                            # the context's process works with its own copy of the connection now - if we kept ours open,
+                            # the client would not see the connection close when the worker ends
+                            cli.close()
                         else:
                             logger.debug('Waiting for the RemoteWorker object...')
                             try:
